@@ -25,7 +25,7 @@ Definition FInv (s : cst) : Prop := fin s = true -> forall id, alive (cs s id) =
 
 Lemma cstep_finv : forall c s l s', FInv s -> cstep c s l = Some s' -> FInv s'.
 Proof.
-  intros c s l s' F H. unfold FInv in *. destruct l as [j x|j k|j|j| |t j|t|j w|]; simpl in H.
+  intros c s l s' F H. unfold FInv in *. destruct l as [j x|j k|j|j| |t j|t|j w| |j]; simpl in H.
   - injection H as <-. exact F.
   - injection H as <-. exact F.
   - destruct (fin s) eqn:Fs; [discriminate|]. simpl in H. destruct (_ || _ || _); [discriminate|]. injection H as <-. simpl. congruence.
@@ -47,6 +47,8 @@ Proof.
     unfold held in Hd. rewrite Fa' in Hd. simpl in Hd. rewrite Hd, orb_true_r. auto.
   - destruct (fin s); [discriminate|]. injection H as <-. simpl. intros _ id. unfold local_close.
     destruct (alive (cs s id)); simpl; auto.
+  - destruct (negb (held (cs s j)) || closed (cs s j)); [discriminate|]. injection H as <-. simpl. intros Fn id.
+    destruct (F Fn id) as [Fa Fc]. unfold fupd. destruct (Nat.eqb id j); simpl; auto.
 Qed.
 Lemma crun_finv : forall c ls s, FInv s -> FInv (crun c ls s).
 Proof. induction ls as [|l r IH]; intros s F; simpl; auto. destruct (cstep c s l) eqn:E; auto. apply IH. eapply cstep_finv; eauto. Qed.
@@ -54,7 +56,7 @@ Lemma cinit_finv : forall n, FInv (cinit n). Proof. intros n F. discriminate. Qe
 
 Lemma fin_stable : forall c s l s', fin s = true -> cstep c s l = Some s' -> fin s' = true.
 Proof.
-  intros c s l s' F H. destruct l as [j x|j k|j|j| |t j|t|j w|]; simpl in H; rewrite ?F in H; simpl in H; try discriminate.
+  intros c s l s' F H. destruct l as [j x|j k|j|j| |t j|t|j w| |j]; simpl in H; rewrite ?F in H; simpl in H; try discriminate.
   - injection H as <-; auto.
   - injection H as <-; auto.
   - destruct (alive (cs s j)); try discriminate. injection H as <-; auto.
@@ -63,6 +65,7 @@ Proof.
   - destruct (nth_error (thr s) t) as [[|h]|]; try discriminate. injection H as <-; auto.
   - destruct (negb (setcb_atomic c)); try discriminate. destruct (held (cs s j)); try discriminate.
     destruct (q (cs s j)) as [lq|]; try discriminate. destruct (negb (Nat.eqb (qends lq) 0)); injection H as <-; auto.
+  - destruct (negb (held (cs s j)) || closed (cs s j)); [discriminate|]. injection H as <-; auto.
 Qed.
 
 Section Loss.
